@@ -331,6 +331,7 @@ func (e *symEval) run(stmts []ast.Stmt) {
 
 func runC14(p *eng.Prog, r *eng.Report, tier string) {
 	c := &cx{p, r, tier}
+	r19NothingMeansNothing(c, "C14.17")
 	r18RoutersOnlyForStanzas(c, "C14.16")
 	r17HandleRefusesOnlyWhatItMust(c, "C14.15")
 	c14Stanza(c)
